@@ -561,7 +561,7 @@ func runLivePair(c *Ctx, r *RuleRun) {
 				continue
 			}
 			md := NewMustDo(p, markCalls(p, mark, "Done"))
-			q := PathQuery{P: p, Fn: open, Avoid: md.Instr, Target: isSuccessReturn}
+			q := PathQuery{P: p, Fn: open, Avoid: md.Instr, Target: isSuccessReturn, SuccessOnly: true}
 			if w := q.FindPath(); w != nil {
 				r.Viol(p.FnName(open), "Done("+mn+")", p.Pos(open.Pos()), "Open can return a DB whose "+mn+" was not advanced to the recovered timestamp: the first Begin() waits forever for commitMark / cleanup never advances", p.describePath(w)...)
 			} else {
